@@ -556,12 +556,13 @@ class Ctx:
             elif lines and not lines[-1].endswith(b"}"):
                 lines.pop()     # torn line
             at_line = ""; at_reset = ""
-            if not done and lines and lines[-1].startswith(b'{"e":"AtLine"'):
+            while not done and lines and lines[-1].startswith(b'{"e":"AtLine"'):      # (a dying driver may write the marker more than once)
                 try:
                     al = json.loads(lines.pop().decode("utf8", "replace"))   # the script line that was executing, and its execution's R line
                     at_line = al["text"]; at_reset = al.get("reset", "")
                 except Exception:
                     at_line = ""
+            lines = [l for l in lines if not l.startswith(b'{"e":"AtLine"')]
             nexec = sum(1 for l in lines if l.startswith(b'{"e":"Reset"'))
             with open(trace, "ab") as f:
                 for l in lines:
